@@ -10,3 +10,13 @@ package hevc
 //@   props C05
 //@   requires len(payload) >= 33
 //@ end
+
+// The entry points are verified on their own (callers use the contract only).
+//@ func ParseVpsSpsPpsFromEnhancedSeqHeader
+//@   props C05
+//@   opaque
+//@ end
+//@ func ParseVpsSpsPpsFromSeqHeaderWithoutMalloc
+//@   props C05
+//@   opaque
+//@ end
